@@ -78,6 +78,13 @@ type World struct {
 
 	TimestampOf func(e uint32, n int) uint64
 
+	// CopyOnLoad: LoadAccount returns a fresh copy of the persisted account on every call and only
+	// SaveAccount persists it (what the node's accounts database does); otherwise it returns the live
+	// object and modifications that were not followed by SaveAccount are discarded at the end of the
+	// call. Accounts the node itself hands to the call are live in both modes. Worlds 4-6 of every
+	// six of a process.
+	CopyOnLoad bool
+
 	// AliasStorage: the data trie keeps the very slice it is given by SaveKeyValue and hands out the
 	// very slice it holds from RetrieveValue (what the node's trackable data trie does with its
 	// dirty entries) instead of copying both ways. Every third world of a process.
@@ -119,11 +126,15 @@ type Shard struct {
 	Container vmcommon.BuiltInFunctionContainer
 	Factory   interface {
 		GasScheduleChange(map[string]map[string]uint64)
+		CreateBuiltInFunctionContainer() (vmcommon.BuiltInFunctionContainer, error)
 	}
 	Subs []vmcommon.EpochSubscriberHandler
 
 	// per-leg tracking of accounts the library loaded itself
 	loaded map[string]*loadTrack
+	// copy-on-load mode: the accounts the node handed over for this leg, and copy -> live object
+	owned  []*Account
+	copies map[*Account]*Account
 }
 
 type loadTrack struct {
@@ -136,6 +147,7 @@ type loadTrack struct {
 type Account struct {
 	sh        *Shard
 	mu        sync.Mutex
+	cleared   map[string]bool // keys that were written and then cleared (see RetrieveValue)
 	Addr      []byte
 	Storage   map[string][]byte
 	Balance   *big.Int
@@ -201,6 +213,7 @@ func New(cfg Config) (*World, error) {
 	seq := atomic.AddUint64(&worldSeq, 1)
 	w.MergeDecode = seq%3 == 0
 	w.AliasStorage = seq%3 == 1
+	w.CopyOnLoad = (seq/3)%2 == 1
 	for _, d := range cfg.DNS {
 		w.DNS[string(d)] = struct{}{}
 	}
@@ -447,8 +460,10 @@ func (w *World) PayAnswer(addr []byte) int {
 }
 
 func (p *PayableOracle) IsPayable(address []byte) (bool, error) {
+	// when the query fails the boolean carries no meaning; the oracle returns true with the error
+	// (a caller that looks at the answer before the error is wrong)
 	if err := p.W.dep(KIsPayable, address, nil); err != nil {
-		return false, err
+		return true, err
 	}
 	switch p.W.PayAnswer(address) {
 	case PayYes:
@@ -456,7 +471,7 @@ func (p *PayableOracle) IsPayable(address []byte) (bool, error) {
 	case PayNo:
 		return false, nil
 	default:
-		return false, ErrPayableOracle
+		return true, ErrPayableOracle
 	}
 }
 func (p *PayableOracle) IsInterfaceNil() bool { return p == nil }
@@ -498,6 +513,13 @@ func (a *Adapter) LoadAccount(address []byte) (vmcommon.AccountHandler, error) {
 		return nil, err
 	}
 	acc := a.sh.Get(address)
+	if a.sh.W.CopyOnLoad && !a.sh.W.Concurrent && a.sh.loaded != nil {
+		// (also for an address the node handed to the call: the library gets a second, independent
+		// object for it, as from the node's accounts database)
+		c := acc.clone(a.sh)
+		a.sh.copies[c] = acc
+		return c, nil
+	}
 	if !a.sh.W.Concurrent && a.sh.loaded != nil {
 		if _, ok := a.sh.loaded[string(address)]; !ok {
 			a.sh.loaded[string(address)] = &loadTrack{acc: acc, modAtLoad: acc.modSeq, savedMod: -1}
@@ -513,6 +535,17 @@ func (a *Adapter) SaveAccount(account vmcommon.AccountHandler) error {
 	}
 	if err := a.sh.W.dep(KSaveAcc, addr, nil); err != nil {
 		return err
+	}
+	if a.sh.W.CopyOnLoad && !a.sh.W.Concurrent && a.sh.loaded != nil {
+		if c, ok := account.(*Account); ok {
+			// whatever object is handed over is persisted under its address (a copy the library kept
+			// from an earlier call included); saving the live object itself changes nothing
+			if live := a.sh.Get(c.Addr); live != c {
+				live.restoreFrom(c)
+				live.modSeq++
+			}
+		}
+		return nil
 	}
 	if !a.sh.W.Concurrent && a.sh.loaded != nil {
 		if lt, ok := a.sh.loaded[string(addr)]; ok {
@@ -545,13 +578,18 @@ func (sh *Shard) Get(address []byte) *Account {
 }
 
 // BeginLeg starts tracking of library-loaded accounts.
-func (sh *Shard) BeginLeg() { sh.loaded = map[string]*loadTrack{} }
+func (sh *Shard) BeginLeg(owned ...*Account) {
+	sh.loaded = map[string]*loadTrack{}
+	sh.owned = owned
+	sh.copies = map[*Account]*Account{}
+}
 
 // EndLeg discards modifications to accounts the library loaded itself but did not save
 // (driverOwned are the accounts the node passed in and saves itself). It returns the addresses
 // whose modifications were discarded.
 func (sh *Shard) EndLeg(driverOwned ...*Account) []string {
 	var discarded []string
+	sh.owned, sh.copies = nil, nil // copy-on-load: a copy that was not saved is simply dropped
 	for addr, lt := range sh.loaded {
 		owned := false
 		for _, d := range driverOwned {
@@ -642,8 +680,13 @@ func (a *Account) RetrieveValue(key []byte) ([]byte, error) {
 	}
 	a.mu.Lock()
 	v, ok := a.Storage[string(key)]
+	tomb := a.cleared[string(key)]
 	a.mu.Unlock()
 	if !ok {
+		if tomb && a.sh.W.AliasStorage {
+			// a key that was written and cleared reads back as an empty, non-nil value here
+			return []byte{}, nil
+		}
 		return nil, nil
 	}
 	if a.sh.W.AliasStorage {
@@ -662,6 +705,12 @@ func (a *Account) SaveKeyValue(key []byte, value []byte) error {
 	defer a.mu.Unlock()
 	a.modSeq++
 	if len(value) == 0 {
+		if _, had := a.Storage[string(key)]; had {
+			if a.cleared == nil {
+				a.cleared = map[string]bool{}
+			}
+			a.cleared[string(key)] = true
+		}
 		delete(a.Storage, string(key))
 		return nil
 	}
@@ -689,6 +738,12 @@ func (a *Account) ShardID() uint32 { return a.sh.ID }
 func (a *Account) clone(sh *Shard) *Account {
 	c := &Account{sh: sh, Addr: a.Addr, Storage: make(map[string][]byte, len(a.Storage)), Balance: new(big.Int).Set(a.Balance),
 		Owner: a.Owner, UserName: a.UserName, DevReward: new(big.Int).Set(a.DevReward), CodeMeta: a.CodeMeta, Nonce: a.Nonce, modSeq: a.modSeq}
+	if len(a.cleared) > 0 {
+		c.cleared = make(map[string]bool, len(a.cleared))
+		for k := range a.cleared {
+			c.cleared[k] = true
+		}
+	}
 	for k, v := range a.Storage {
 		if a.sh != nil && a.sh.W.AliasStorage {
 			c.Storage[k] = append([]byte{}, v...) // the library holds references into live values
@@ -700,6 +755,13 @@ func (a *Account) clone(sh *Shard) *Account {
 }
 
 func (a *Account) restoreFrom(c *Account) {
+	a.cleared = nil
+	if len(c.cleared) > 0 {
+		a.cleared = make(map[string]bool, len(c.cleared))
+		for k := range c.cleared {
+			a.cleared[k] = true
+		}
+	}
 	a.Storage = make(map[string][]byte, len(c.Storage))
 	for k, v := range c.Storage {
 		if a.sh != nil && a.sh.W.AliasStorage {
@@ -920,6 +982,7 @@ func (w *World) Clone() (*World, error) {
 	}
 	c.MergeDecode = w.MergeDecode
 	c.AliasStorage = w.AliasStorage
+	c.CopyOnLoad = w.CopyOnLoad
 	c.TimestampOf = w.TimestampOf
 	for k, v := range w.Payable {
 		c.Payable[k] = v
